@@ -814,37 +814,6 @@ func runOnce(in *ScenarioIn) (*ScenarioOut, error) {
 			out.Notes = append(out.Notes, fmt.Sprintf("%s %s accepted a connection after proxy.Shutdown returned", s.kind, s.addr))
 		}
 	}
-	// an address that was busy while its listener was being started is watched until well after it became free
-	if anyPending || anyLate {
-		until := t0.Add(lastFree + pendingWatchMs*time.Millisecond)
-		for time.Now().Before(until) {
-			for i, s := range srvs {
-				if in.Servers[i].Pending != 0 && !out.Accepted[i] && probe(s.addr) {
-					out.Accepted[i] = true
-					out.Notes = append(out.Notes, fmt.Sprintf("%s %s (start pending when shutdown began, address free %d ms after) accepted a connection %d ms after shutdown began", s.kind, s.addr, in.Servers[i].Pending, time.Since(t0).Milliseconds()))
-				}
-				if in.Servers[i].Late != 0 && !out.Accepted[i] && probe(s.addr) {
-					out.Accepted[i] = true
-					out.Notes = append(out.Notes, fmt.Sprintf("%s %s (ListenAndServe called %d ms after shutdown began) accepted a connection %d ms after shutdown began", s.kind, s.addr, in.Servers[i].Late, time.Since(t0).Milliseconds()))
-				}
-			}
-			time.Sleep(40 * time.Millisecond)
-		}
-		lateMu.Lock()
-		if lateErr != nil {
-			out.Notes = append(out.Notes, "late start failed: "+lateErr.Error())
-		}
-		lateMu.Unlock()
-		for i, s := range srvs {
-			if in.Servers[i].Pending != 0 {
-				if s.returned.Load() {
-					out.Notes = append(out.Notes, fmt.Sprintf("%s %s: ListenAndServe returned: %v", s.kind, s.addr, s.startErr))
-				} else {
-					out.Notes = append(out.Notes, fmt.Sprintf("%s %s: ListenAndServe had not returned %d ms after shutdown began", s.kind, s.addr, time.Since(t0).Milliseconds()))
-				}
-			}
-		}
-	}
 	time.Sleep(settleMs * time.Millisecond)
 	out.DurMs = dur.Milliseconds()
 	switch {
@@ -874,6 +843,39 @@ func runOnce(in *ScenarioIn) (*ScenarioOut, error) {
 	for _, w := range all {
 		if f := w.it.get(); f == "cut" {
 			out.Notes = append(out.Notes, fmt.Sprintf("%s cut after %d ms: %s", w.it.id, w.it.finished.Sub(t0).Milliseconds(), w.it.detail))
+		}
+	}
+	// (the fates above were read at the usual moment, settleMs after Shutdown returned: the watch below must not
+	// give long work the time to end by itself)
+	// an address that was busy while its listener was being started is watched until well after it became free
+	if anyPending || anyLate {
+		until := t0.Add(lastFree + pendingWatchMs*time.Millisecond)
+		for time.Now().Before(until) {
+			for i, s := range srvs {
+				if in.Servers[i].Pending != 0 && !out.Accepted[i] && probe(s.addr) {
+					out.Accepted[i] = true
+					out.Notes = append(out.Notes, fmt.Sprintf("%s %s (start pending when shutdown began, address free %d ms after) accepted a connection %d ms after shutdown began", s.kind, s.addr, in.Servers[i].Pending, time.Since(t0).Milliseconds()))
+				}
+				if in.Servers[i].Late != 0 && !out.Accepted[i] && probe(s.addr) {
+					out.Accepted[i] = true
+					out.Notes = append(out.Notes, fmt.Sprintf("%s %s (ListenAndServe called %d ms after shutdown began) accepted a connection %d ms after shutdown began", s.kind, s.addr, in.Servers[i].Late, time.Since(t0).Milliseconds()))
+				}
+			}
+			time.Sleep(40 * time.Millisecond)
+		}
+		lateMu.Lock()
+		if lateErr != nil {
+			out.Notes = append(out.Notes, "late start failed: "+lateErr.Error())
+		}
+		lateMu.Unlock()
+		for i, s := range srvs {
+			if in.Servers[i].Pending != 0 {
+				if s.returned.Load() {
+					out.Notes = append(out.Notes, fmt.Sprintf("%s %s: ListenAndServe returned: %v", s.kind, s.addr, s.startErr))
+				} else {
+					out.Notes = append(out.Notes, fmt.Sprintf("%s %s: ListenAndServe had not returned %d ms after shutdown began", s.kind, s.addr, time.Since(t0).Milliseconds()))
+				}
+			}
 		}
 	}
 	for _, t := range timers {
